@@ -38,25 +38,40 @@ VALUES: Dict[str, Dict[str, Any]] = {
     "floatz": {"V1": 0.0, "V2": 2.5, "other": 7.25},
     "asciiz": {"V1": "", "V2": "V2", "other": "XX"},
     "bytesz": {"V1": b"", "V2": bytes([0x0A, 0x02]), "other": bytes([0x0B, 0xFF])},
+    # hex-valued kinds whose EXPECTED-VALUE is spelled with LOWER-CASE hex digits ("0a01", "0x12ab"): a hex text denotes
+    # bytes / a number, its letter case carries no meaning (odxtools upper-cases both sides; "hex for bytes/DTC" is the
+    # comparison rule named in the property's anchors). Every value contains at least one digit a-f.
+    "byteslc": {"V1": bytes([0x0A, 0x01]), "V2": bytes([0x0A, 0x02]), "other": bytes([0x0B, 0xFF])},
+    "dtclc": {"V1": 0x12AB, "V2": 0x5C78, "other": 0x9ABC},
 }
 # A possibly empty payload would make the positive response as short as the negative response `7F 22 31`, which odxtools
 # then decodes with the positive response under a constant-mismatch warning (DON'T-CARE): these services carry a constant
 # byte in front of the payload, so that a negative response stays undecodable for the positive response.
 PADDED_TYPES = ("asciiz", "bytesz")
-KIND = {"u8z": "u8", "floatz": "float", "asciiz": "ascii", "bytesz": "bytes"}  # comparison kind of the falsy variants
+KIND = {"u8z": "u8", "floatz": "float", "asciiz": "ascii", "bytesz": "bytes",  # comparison kind of the falsy variants
+        "byteslc": "bytes", "dtclc": "dtc"}  # ... and of the lower-case spelled ones
+LOWER_CASE_TYPES = ("byteslc", "dtclc")
 BASE_LAYOUTS = ("top", "toppath", "struct", "field", "tstruct")
 # field replies: layout -> (number of items, index of the item that carries the wanted value); all other items carry "other"
 FIELD_ITEMS = {"field": (2, 1), "f1_0": (1, 0), "f2_0": (2, 0), "f3_0": (3, 0), "f3_1": (3, 1), "f3_2": (3, 2),
                "fnest": (2, 1),  # field -> nested structure -> leaf        (SNPATHREF fl.in.id)
                "ffield": (2, 1)}  # field (one item) -> field -> leaf         (SNPATHREF fl.fl2.id)
 # "sstruct": structure -> structure -> leaf (SNPATHREF st.in.id)
-EXTRA_LAYOUTS = ("f1_0", "f2_0", "f3_0", "f3_1", "f3_2", "fnest", "sstruct", "ffield")
+# "tworesp": the service has TWO positive responses that both decode the reply: a short one `62 <did> <id>` (trailing bytes
+# are tolerated) listed BEFORE the long one `62 <did> <id> <rev>`; the matching parameter points at `rev`, which only the
+# long one exhibits ("tworesp_r": long one listed first). The value decoded from the ECU's response is the one of the
+# response object that exhibits the parameter.
+TWO_RESPONSES = ("tworesp", "tworesp_r")
+TWORESP_ID = 0x07  # the constant content of the `id` byte in these replies
+EXTRA_LAYOUTS = ("f1_0", "f2_0", "f3_0", "f3_1", "f3_2", "fnest", "sstruct", "ffield") + TWO_RESPONSES
 LAYOUTS = BASE_LAYOUTS + EXTRA_LAYOUTS
 
 
 def expected_text(typ: str, v: Any) -> str:
     """The EXPECTED-VALUE text that denotes python value v of the given type (the canonical spelling; other
     spellings -- leading zeros, lower-case hex, '1.50' -- are DON'T-CARE and not generated)."""
+    if typ in LOWER_CASE_TYPES:
+        return expected_text(KIND[typ], v).lower()
     typ = KIND.get(typ, typ)
     if typ == "u8":
         return str(v)
@@ -134,6 +149,8 @@ def response_bytes(svc: Dict[str, Any], answer: str, own: bool = False) -> bytes
     body = b"".join(wire(svc["type"], v) for v in item_values(svc, answer))
     if svc["layout"] == "tstruct":
         body = bytes([0x01]) + body  # table key selecting the only row
+    if svc["layout"] in TWO_RESPONSES:
+        body = bytes([TWORESP_ID]) + body  # `id` (in both positive responses), then `rev` (only in the long one)
     if own or svc["type"] in PADDED_TYPES:
         body = bytes([OWN_PAD]) + body  # a variant's own re-definition also has another response layout
     return bytes([0x62]) + did + body
